@@ -180,6 +180,35 @@ int main(int argc, char ** argv) {
                 mc_viol("c09/state-leaks-after-input-overrun", "fragment [%s], overrun, then B [%s]: trace [%s] output [%s]; B on a fresh context: trace [%s] output [%s]", mc_es(frags[f]), mc_e(mb, (size_t) bl), mc_es(TR), mc_e(OUT, OUTN), mc_es(fresh[b].tr), mc_e(fresh[b].out, fresh[b].outn));
         }
     }
+    /* a LONG message A (255 .. 70000 bytes of valid units) in an input buffer that holds it, delivered whole and in two chunks, then B:
+     * positions and lengths beyond 8 and 16 bits must not leave anything of A behind */
+    {
+        static const int alen[] = {255, 256, 257, 300, 511, 512, 513, 700, 32767, 32768, 65535, 65536, 70000};
+        static tc_t L;
+        int ai, deliv;
+        tc_init(&L, mt_cmds, 70016, 64);
+        for (ai = 0; ai < 13; ai++) for (deliv = 0; deliv < 2; deliv++) for (b = 0; b < NU; b++) {
+            int n = alen[ai], o = 0, bl;
+            char * am;
+            if (!MC_CASE()) continue;
+            bl = make_msg(b, mb);
+            am = (char *) malloc((size_t) n + 1);
+            while (o + 7 <= n - 1) { memcpy(am + o, "I2 1,2;", 7); o += 7; }
+            while (o < n - 1) am[o++] = ' ';
+            am[o++] = '\n';
+            mc_case_tag = "long-message-history"; mc_case_i[0] = n; mc_case_i[1] = deliv; mc_case_s[1] = (const unsigned char *) mb; mc_case_n[1] = (size_t) bl;
+            tc_reinit(&L, mt_cmds); tr_reset();
+            if (deliv == 0) SCPI_Input(&L.ctx, am, n); else { SCPI_Input(&L.ctx, am, n / 2); SCPI_Input(&L.ctx, am + n / 2, n - n / 2); }
+            free(am);
+            if (L.ctx.buffer.position != 0) { mc_viol("c09/long-message-left-in-buffer", "A of %d bytes (terminated): %d bytes still buffered", n, (int) L.ctx.buffer.position); continue; }
+            tr_reset();
+            { int r = (int) SCPI_Input(&L.ctx, mb, bl); tr_printf("R%d;", r); }
+            n_pairs++; n_nontrivial++;
+            if (TRN != fresh[b].trn || memcmp(TR, fresh[b].tr, TRN) || OUTN != fresh[b].outn || memcmp(OUT, fresh[b].out, OUTN))
+                mc_viol("c09/state-leaks-after-long-message", "A of %d bytes delivered in %d call(s), then B [%s]: trace [%s] output [%s]; B on a fresh context: trace [%s] output [%s]", n, deliv + 1, mc_e(mb, (size_t) bl), mc_es(TR), mc_e(OUT, OUTN), mc_es(fresh[b].tr), mc_e(fresh[b].out, fresh[b].outn));
+        }
+        tc_free(&L);
+    }
     /* A and the unterminated B in ONE input call, B executed by a zero-length flush, against B alone + flush (single-unit B) */
     for (a = 0; a < NM; a++) {
         int al = make_msg(a, ma);
